@@ -1459,6 +1459,38 @@ def isfinite(x):
     return bool(_rnp.isfinite(x))
 
 
+def nan_to_num(x, copy=True, nan=0.0, posinf=None, neginf=None):
+    """NaN -> nan (0.0), +inf/-inf -> largest/smallest finite value of the dtype."""
+    a = asarray(x)
+    if a._structured:
+        raise UnsupportedInShim("nan_to_num on structured array")
+    code = a.dtype.code
+    if code[0] != "f":
+        return a.copy()
+    w = _fw(code)
+    fi = _rnp.finfo("<f4" if w == 32 else "<f8")
+    big = E.float_to_bits(float(fi.max) if posinf is None else float(posinf), w)
+    small = E.float_to_bits(float(fi.min) if neginf is None else float(neginf), w)
+    zero = E.float_to_bits(float(nan), w)
+    out = []
+    for p in a._idx:
+        b = a._buf[p]
+        if isinstance(b, int):
+            with _rnp.errstate(all="ignore"):
+                v = _rnp.nan_to_num(E.bits_to_float(b, w), nan=nan, posinf=posinf, neginf=neginf)
+            out.append(E.float_to_bits(v, w) if w == 64 else int(_rnp.array(v, dtype="<f4").view("<u4")))
+            continue
+        f = SFloat(w, b)
+        sign = z3.Extract(w - 1, w - 1, b) == 1
+        r = z3.If(f.isnan_e(), z3.BitVecVal(zero, w),
+                  z3.If(f.isinf_e(), z3.If(sign, z3.BitVecVal(small, w), z3.BitVecVal(big, w)), b))
+        out.append(z3.simplify(r))
+    res = ndarray._mk(a.shape, a.dtype, out, list(range(len(out))))
+    if not a.shape:
+        return res._elem_out(0)
+    return res
+
+
 def array_equal(a1, a2, equal_nan=False):
     try:
         a1, a2 = asarray(a1), asarray(a2)
